@@ -99,3 +99,20 @@ def gen_t3(rng):
         if t3_in_domain(T, rate, accel, jerk):
             return T, rate, accel, jerk, fam
     return 3, 5, 1, 1, "fallback"
+
+
+def lt_total0(rate, accel, T):
+    """accumulator total of an LT move started from accumulator 0"""
+    r0 = rate - tq(accel, 2)
+    return r0 * T + accel * T * (T + 1) // 2
+
+def t3_total0(T, rate, accel, jerk):
+    """accumulator total of a T3 move started from accumulator 0"""
+    re = rate - tq(accel, 2) + tq(jerk, 6)
+    return T * re + accel * (T * (T + 1) // 2) + jerk * ((T - 1) * T * (T + 1) // 6)
+
+def boundary_acc(rng, total0):
+    """an explicit starting accumulator that puts the final total on / next to a multiple of 2^31 (remainder 0, 1, 2^31-1, 2^31-2):
+    the point where floor-divide and rounding must be done in the right order and at full precision"""
+    m = rng.choice([0, 0, 1, M, M - 1])
+    return (m - total0) % B
